@@ -125,7 +125,9 @@ func (obj *Instance) Init(scope *slip.Scope, args slip.List, depth int) {
 		if key == ":self" {
 			slip.ErrorPanic(scope, depth, "initialization keyword 'self' is not initable.")
 		}
-		i++
+		if i++; len(args) <= i {
+			slip.ErrorPanic(scope, depth, "initialization keyword %s is missing a value.", sym)
+		}
 		val := args[i]
 		initable := len(cf.initable) == 0 || cf.initable[key]
 		for _, f2 := range cf.inherit {
